@@ -200,11 +200,11 @@ def textHtml (escape : Bool) (pos : Pos) (s : Str) : Str :=
 is (`ESCAPE_CHILDREN = false`: pushed raw, F-C06-1); `true`: after hooks/fix-c06-3.patch
 (`HtmlElement::to_html_with_buf` renders them without markers and passes the result through
 `encode_text`).  Flip when the fix is applied. -/
-def textareaEscaped : Bool := false
+def textareaEscaped : Bool := true
 
 /-- is a line feed at the start of the textarea text doubled (the parser drops the first one)?
 `true` after hooks/fix-c06-4.patch (which builds on fix-c06-3).  Flip when the fix is applied. -/
-def textareaLfGuard : Bool := false
+def textareaLfGuard : Bool := true
 
 def cLf' : Char := Char.ofNat 10
 
